@@ -33,16 +33,29 @@ def run_scripts(ctx, name, scripts):
     reals = []
     lines = []
     for defs, ops in scripts:
-        cfg, obs, ev = W.run_real(defs, ops)
+        try:
+            cfg, obs, ev = W.run_real(defs, ops)
+        except Exception as e:  # noqa - the application could not even be constructed / driven for a valid configuration
+            import traceback
+            ctx.oracle_fail("the application raised %s while being constructed or driven for a valid --trx configuration (sessions run one after the other in one process: "
+                            "state that survives an Application object is visible here)" % type(e).__name__,
+                            dict(trx_defs=defs, ops=[describe(o) for o in ops][:40], traceback=traceback.format_exc()[-1500:]), key=ctx.pid.lower() + "-application-raises:" + type(e).__name__)
+            cfg, obs, ev = [], [], []
         reals.append((cfg, obs, ev))
         # the model runs the same prefix of operations the implementation executed (it stops at a crashed tick)
-        lines.append(W.model_line(cfg, ops))
+        lines.append(W.model_line(cfg, ops) if cfg else None)
+    live = [k for k, l in enumerate(lines) if l is not None]
     try:
-        ms = ctx.model("Trx", lines)
+        ms_live = ctx.model("Trx", [lines[k] for k in live])
     except common.ModelUnavailable:
         return reals
+    ms = [None] * len(lines)
+    for k, m in zip(live, ms_live):
+        ms[k] = m
     bad = 0
     for k, ((defs, ops), (cfg, obs, ev), m) in enumerate(zip(scripts, reals, ms)):
+        if m is None:
+            continue
         ctx.evaluations += 1
         ctx.traces += 1
         if m != obs:
